@@ -62,7 +62,19 @@ class Prop:
               "load (save t) returns the stored header and a tree iso to t, and the result does not depend on key_map / value_map.  Tied to "
               "/repo by a correspondence check that writes and reads real files through all compression methods and target kinds."),
         note=("Trusted: Coq kernel + vm_compute; hand-written model theories/Forest/Serialize.v (tied by the correspondence only); json, "
-              "zipfile, io (byte transport); harness generators/observation.  Known finding D40."),
+              "zipfile, io (byte transport); harness generators/observation.  Known findings D40, D51; D92 pending fix.  "
+              "EXERCISED, NOT PROVED (outside a pure value model of the document; checked by the harness oracle on every case): the six "
+              "compression values and str/Path/stream targets give the same text and the same loaded tree (the compression DISPATCH itself is "
+              "proved in part ZIPIO, C05_transport_*); callback vs derived-class mappers are the same model function reached by two Python "
+              "routes (both run, incl. mappers that consume their dict); the loaded tree is an instance of the loading class (type(t) is cls); "
+              "save/load leave node data, the caller's meta/value_map/file_meta dicts and the class-level default maps untouched; clones share "
+              "ONE data object (model: i_obj, compared in the correspondence; not part of iso).  OUTSIDE THE DOMAIN: two nodes with one explicit "
+              "data_id but different data objects (one data_id = one data object is what 'clone' means): the second is written as a reference "
+              "and loads with the first one's data; theorem hypothesis clones_consistent, C05_roundtrip_without_clones_consistent_refuted, "
+              "Example C05_outside_domain_same_id_different_data; the oracle expects exactly the first occurrence's data there.  Also outside: "
+              "non-injective custom key_map and reserved $-keys in user meta (user errors, opts_ok).  Mapper hypotheses (mapper_ok) are "
+              "assumptions about the user's mapper pair; they are proved for the concrete pair wser/wdeser and for the library's default "
+              "mappers on str data (C05_roundtrip_default_mappers), not for the harness' table-driven mappers."),
         technique="Coq proof about an executable Gallina model + differential correspondence check (vm_compute) + Python oracle",
         design_ref="DESIGN.md section 6 (C05)",
     )
@@ -217,14 +229,16 @@ class Prop:
         elif d51 and isinstance(t0, KeyError) and not fail:
             # known finding D51: the reader renames the mapper's own "s" (size) to "str"; FileSystemEntry(size=data["s"]) fails
             fail, finding = f"D51: load fails with {t0!r} because the key_map's short name 's' is also a key of the entries", "D51"
+        elif needs_mapper and type(t0) is NotImplementedError and not fail:
+            # finding D92 (fixes/D92.diff): written without a mapper, not loadable without one -- exactly this error
+            fail, finding = f"D92: a plain Tree saved without a mapper cannot be loaded without one: {t0!r:.160}", "D92"
         elif isinstance(t0, Exception):
-            if not needs_mapper:
-                fail = fail or f"roundtrip: load fails with {t0!r:.300} on {text0[:400]}"
+            fail = fail or f"roundtrip: load fails with {t0!r:.300} on {text0[:400]}"
         else:
             if type(t0) is not cls:
                 fail = fail or f"roundtrip: loaded tree is a {type(t0).__name__}"
             d40 = S.in_d40_region(tree._root)
-            f2 = S.tree_iso(tree._root, t0._root, d40_expected=d40, check_data=S.ids_consistent(tree._root))
+            f2 = S.tree_iso(tree._root, t0._root, d40_expected=d40)
             if f2 and f2.startswith("D40") and not fail:
                 fail, finding = f2, "D40"
             else:
@@ -324,7 +338,7 @@ def _more_checks(self, desc, tree, cls, lkw, text0, t0):
                 tl = cls.load(io.StringIO(fp.getvalue()), **lkw)
             except Exception as e:  # noqa: BLE001
                 return f"history: save, replace a node by one of a new kind, save again, load: {e!r:.200}"
-            f2 = S.tree_iso(tree2._root, tl._root, d40_expected=S.in_d40_region(tree2._root), check_data=S.ids_consistent(tree2._root))
+            f2 = S.tree_iso(tree2._root, tl._root, d40_expected=S.in_d40_region(tree2._root))
             if f2 and not f2.startswith("D40"):
                 return "history: after save, replacing a node, save again: " + f2
     return None
@@ -359,6 +373,10 @@ CORPUS = [
     # D51 (known): FileSystemTree saved with the plain Tree's default key_map: "s" is a short name AND the mapper's size key
     dict(typed=False, univ=["D:src", "f:a.py:120:1700000000.5"], nodes=[[0, None, None, [[1, None, None, []]]]],
          km="treedefault", vm="true", mapper="fs", meta=None, calc=None),
+    # outside the domain (clones_consistent): one explicit data_id on two different data objects -- 'b' must load as 'a', exactly
+    _d(False, ["s:a", "s:x", "s:b"], [[0, None, 1, []], [1, None, None, [[2, None, 1, []]]]], mapper="cb"),
+    # D92: plain Tree, str node with explicit id, no mapper
+    _d(False, ["s:x", "s:y"], [[0, None, "k1", [[1, None, None, []]]]], mapper="none"),
     # unicode, falsy explicit ids
     _d(False, ["s:\u00e4\u20ac\U0001f600", "e:1", "s:z"], [[0, None, 0, [[1, None, "", []]]], [2, None, None, [[0, None, 0, []]]]], km="custom", vm="custom",
        meta={"\u00fc": ["\u20ac"]}),
